@@ -60,6 +60,36 @@ def resolver(P, G):
     return list(cands.values()), list(core.values())
 
 
+def _prod_poly(P, f, txt):
+    from ..algebra import A as _A, C as _C
+    try:
+        e = ast.parse(txt, mode='eval').body
+    except SyntaxError:
+        return None
+
+    def ev(x):
+        t = U(x)
+        if t == 'bits_per_voxel':
+            return _A('bits')
+        for k in range(3):
+            if t == 'blockshape[%d]' % k:
+                return _A('bs%d' % k)
+        if isinstance(x, ast.Constant) and isinstance(x.value, int) and not isinstance(x.value, bool):
+            return _C(x.value)
+        if isinstance(x, (ast.Name, ast.Attribute)):
+            v = TB.const_eval(P, f.module, x, f)
+            if v is None and isinstance(x, ast.Name) and x.id in f.module.const_nodes:
+                v = TB.const_eval(P, f.module, f.module.const_nodes[x.id])
+            return _C(v) if v is not None else None
+        if isinstance(x, ast.BinOp) and isinstance(x.op, (ast.Mult, ast.Add, ast.Sub)):
+            l, r = ev(x.left), ev(x.right)
+            if l is None or r is None:
+                return None
+            return l * r if isinstance(x.op, ast.Mult) else l + r if isinstance(x.op, ast.Add) else l - r
+        return None
+    return ev(e)
+
+
 def run(ctx):
     P, G = ctx.P, ctx.G
     ctx.rule('C19.1', 'every normal return of the resolver is dominated by the product check and the power-of-two check')
@@ -87,9 +117,14 @@ def run(ctx):
             pow_ok = False
             for a in facts:
                 txt = ' '.join(str(x) for x in a[1:])
-                if a[0] == '==' and 'bits_per_voxel' in txt and all('blockshape[%d]' % i in txt for i in range(3)) \
-                        and 'DISK_BLOCK_BYTES' in txt and '8' in txt:
-                    prod_ok = True
+                if a[0] == '==' and 'bits_per_voxel' in txt and all('blockshape[%d]' % i in txt for i in range(3)):
+                    # both sides as polynomials over the rate and the three components; constants through the module
+                    l, r = _prod_poly(P, f, a[1]), _prod_poly(P, f, a[2])
+                    dsk = P.const_value(P.modules['sgzconstants'], 'DISK_BLOCK_BYTES')
+                    from ..algebra import A as _A, C as _C
+                    want = _A('bits') * _A('bs0') * _A('bs1') * _A('bs2')
+                    if l is not None and r is not None and {repr(l), repr(r)} == {repr(want), repr(_C(8 * dsk))}:
+                        prod_ok = True
                 if a[0] in ('T', '==') and 'blockshape' in txt and '&' in txt and '- 1' in txt:
                     pow_ok = True
             label = 'return at line %d' % s.lineno
